@@ -127,12 +127,15 @@ def run(ctx):
     rl = literals(pm)
     keys_r = {s for s in rl if s in ("title", "chan_type", "labels") or s.endswith("_type") or s in ("label", "chantype", "chan-type")}
     tokens_r = set()
-    for i, n in enumerate(pm.nodes):
-        if n["k"] == "CallExpr" and n.get("callee") == "strcmp":
-            for a in n["args"]:
-                an = pm.nodes[pm.strip(a)]
-                if an["k"] == "StringLiteral":
-                    tokens_r.add(an["s"])
+    # parse_mark and the private helpers only it uses (the token comparison may live in one of them)
+    priv_pm = prog.helper_closure({pm.name}, pm.file)
+    for g_ in [pm] + [g for g in prog.reachable_fns([pm]) if g.file == pm.file and g.name in priv_pm and g is not pm]:
+        for i, n in enumerate(g_.nodes):
+            if n["k"] == "CallExpr" and n.get("callee") == "strcmp":
+                for a in n["args"]:
+                    an = g_.nodes[g_.strip(a)]
+                    if an["k"] == "StringLiteral":
+                        tokens_r.add(an["s"])
     root_r = [s for s in literals(st) if s.startswith("ovni.")]
     ctx.check(suffixes == {"title", "chan_type", "labels"}, "R17.1", "runtime:mark-keys", mt.loc(),
               "the runtime writes mark keys with suffixes %s" % sorted(suffixes))
